@@ -115,6 +115,21 @@ def gen_cases(rng, tier):
         else:
             c, f = rng.choice(COLLS), rng.choice(FAILING)
             add("boundary", rng.choice(["%s where %s", "%s => %s", "%s >> %s", "%s orderby %s", "%s rank (r: %s)", "%s :> %s"]) % (c, f))
+    # stream 1c: values that have just changed representation (multi-valued -> single, sparse -> dense, hole filled, last item gone)
+    # under every kind of consumer
+    BUILT = ["(({'a': 1} with (@: 'a', @value: 2)) without (@: 'a', @value: 2))", "(({1: 1} | {1: 2}) &~ {(@: 1, @value: 2)})",
+             "(({1: 1} | {1: 2} | {1: 3}) without (@: 1, @value: 3))", "([1, , 3] without (@: 2, @item: 3))",
+             "([1, 2, 3] without (@: 1, @item: 2) without (@: 2, @item: 3))", "([1] with (@: 2, @item: 3) without (@: 2, @item: 3))",
+             "(\"abc\" without (@: 1, @char: 98) without (@: 2, @char: 99))", "(\"abc\" without (@: 1, @char: 98) with (@: 1, @char: 98))",
+             "(\"a\" with (@: 2, @char: 99) without (@: 2, @char: 99))", "(<<1, 2, 3>> without (@: 2, @byte: 3))", "(<<1, 2, 3>> without (@: 1, @byte: 2))",
+             "({(a: 1), (a: 2)} without (a: 2))", "({1, 'a'} without 'a')", "({|a, b| (1, 2), (3, 4)} without (a: 3, b: 4))",
+             "(([1, 2] | [3]) &~ [3])", "((2\\[1, , 3]) without (@: 4, @item: 3))"]
+    USES = ["%s => .", "%s orderby .", "{'x': 1} +> %s", "%s +> {'x': 1}", "//tuple(%s)", "//seq.join(\",\", %s)", "%s count", "{%s, 1} count", "%s = %s",
+            "%s >> \\x x", "%s where true", "%s ++ [1]", "%s(0)?:9", "%s | %s", "%s & %s", "//seq.concat([%s, %s])", "%s rank (r: .)", "{%s: 1}(%s)?:0", "%s < %s",
+            "let [...r] = %s; r", "let {...r} = %s; r", "//encoding.json.encode(%s)"]
+    for b in BUILT:
+        for u in USES:
+            add("transition", u.replace("%s", b))
     # stream 2: malformed source text
     n2 = 100 if tier == "quick" else 4000
     for _ in range(n2):
@@ -181,7 +196,7 @@ def main(tier, seed, replay=None):
     nontriv = len(set(c["src"] for c in cases if (outs.get(c["id"]) or {}).get("st") in ("ok", "err")))
     step = max(1, len(cases) // 8)
     run.cov.update({"evaluations": len(cases), "distinct_nontrivial": nontriv,
-                    "rule": "three streams through syntax.EvaluateExpr under recover() and a wall-clock watchdog (a wedged process is killed and restarted): (1) well-formed but ill-typed programs: every binary, comparison, unary and postfix operator, call, ?:, dot, nest, let/cond patterns and standard-library functions over operands of every kind and representation incl. functions, natives, @neg wrappers, huge/inf/nan numbers; (1b) well-typed operations at the edges of a representation (with/without/set operators/membership/calls at indices just outside, at and just inside both ends of strings, byte arrays, arrays and dicts with and without offsets and holes, huge and fractional indices, out-of-range characters and bytes) and callbacks that fail part-way through a collection (where, =>, >>, orderby, rank, :>, >>> over relations, sets, arrays, dicts and strings of 3-4 members); (2) malformed source: token soup over the grammar's terminals, truncated/garbled well-formed literals, raw bytes; (3) the committed witness of every open finding; a failure signature is the panic site (package:function of the first arr-ai/arrai frame), 'crash' or 'hang'; distinct non-trivial = distinct sources ending in a value or an ordinary error",
+                    "rule": "three streams through syntax.EvaluateExpr under recover() and a wall-clock watchdog (a wedged process is killed and restarted): (1) well-formed but ill-typed programs: every binary, comparison, unary and postfix operator, call, ?:, dot, nest, let/cond patterns and standard-library functions over operands of every kind and representation incl. functions, natives, @neg wrappers, huge/inf/nan numbers; (1b) well-typed operations at the edges of a representation (with/without/set operators/membership/calls at indices just outside, at and just inside both ends of strings, byte arrays, arrays and dicts with and without offsets and holes, huge and fractional indices, out-of-range characters and bytes) and callbacks that fail part-way through a collection (where, =>, >>, orderby, rank, :>, >>> over relations, sets, arrays, dicts and strings of 3-4 members); (1c) an enumerated product of 16 values that have just changed representation (multi-valued dict back to single-valued, sparse array back to dense, filled string hole, removed last item, ...) x 22 consumers (enumeration, ordering, merge, //tuple, join, count, hashing, equality, >>, where, ++, call, set operators, rank, patterns, JSON); (2) malformed source: token soup over the grammar's terminals, truncated/garbled well-formed literals, raw bytes; (3) the committed witness of every open finding; a failure signature is the panic site (package:function of the first arr-ai/arrai frame), 'crash' or 'hang'; distinct non-trivial = distinct sources ending in a value or an ordinary error",
                     "samples": [cases[i]["src"][:120] for i in range(0, len(cases), step)][:8],
                     "status_histogram": hist, "stream_histogram": streams, "failure_signatures": sigs, "exhaustive": False})
     run.assumptions = ["the host-level recover of CLI/shell/server is not exercised; the check calls syntax.EvaluateExpr directly"]
